@@ -17,6 +17,7 @@ import (
 	"os"
 	"sort"
 	"strconv"
+	"sync/atomic"
 
 	"github.com/DataDog/datadog-go/v5/statsd"
 	"go.uber.org/zap"
@@ -149,7 +150,7 @@ func VerifC10Copy(c VerifC10Case, dir string) (obs VerifC10Obs) {
 		}
 	}
 	code, ok := verifC10CopyJS[c.Kind]
-	if c.Kind == "httpecho" || c.Kind == "httpctx" {
+	if c.Kind == "httpecho" || c.Kind == "httpctx" || c.Kind == "httpflaky" {
 		ok = true
 	}
 	if !ok {
@@ -173,10 +174,16 @@ func VerifC10Copy(c VerifC10Case, dir string) (obs VerifC10Obs) {
 		return &job{dsm: dsm, id: jc.ID, title: jc.Title, pipeline: pl, schedule: "@every 2000s", runner: runner}, nil
 	}
 	tr := fmt.Sprintf(`"transform":{"Type":"JavascriptTransform","Parallelism":%d,"Code":"%s"},`, c.Par, base64.StdEncoding.EncodeToString([]byte(code)))
-	if c.Kind == "httpecho" || c.Kind == "httpctx" {
-		// an external transform service that sends back what it received (HttpTransform, without / with the namespace context)
+	var failNext int32
+	if c.Kind == "httpecho" || c.Kind == "httpctx" || c.Kind == "httpflaky" {
+		// an external transform service that sends back what it received (HttpTransform, without / with the namespace context);
+		// httpflaky: it answers 503 once, to the first request of the final full-sync run
 		srv := httptest.NewServer(http.HandlerFunc(func(w http.ResponseWriter, r *http.Request) {
 			body, _ := io.ReadAll(r.Body)
+			if atomic.CompareAndSwapInt32(&failNext, 1, 0) {
+				w.WriteHeader(503)
+				return
+			}
 			w.Header().Set("Content-Type", "application/json")
 			w.WriteHeader(200)
 			_, _ = w.Write(body)
@@ -260,6 +267,9 @@ func VerifC10Copy(c VerifC10Case, dir string) (obs VerifC10Obs) {
 	jf, err := mk("jt", "dst", tr, JobTypeFull)
 	if err == nil {
 		before = verifC10Count(dst)
+		if c.Kind == "httpflaky" {
+			atomic.StoreInt32(&failNext, 1)
+		}
 		if o, _ := runJob(jf); o == "ok" {
 			obs.FullChanges = verifC10Count(dst) - before
 		} else {
